@@ -233,4 +233,87 @@ example : (walk (mkEnv .amd64 .other exCfiW exCfiMem) (some exCfiMem) exCfiCtx).
     r0, r1]
   decide
 
+/-! ## non-vacuity: ARM64 — a leaf first frame, then a frame saving `fp`, with pointer-authentication bits
+
+  The context frame is in a leaf function (record `.cfa: sp 0 + .ra: lr`): its caller has the same
+  stack pointer and the return address `lr` with the ptr-auth bits (above bit 47) stripped. That
+  caller's record saves `fp`; the return-address word on the stack carries ptr-auth bits too. -/
+
+def exLeafSf : SymFile :=
+  { cfis := [ { addr := 0x100, size := 0x100, init := ".cfa: sp 32 + .ra: .cfa -8 + ^ fp: .cfa -16 + ^", adds := [] },
+              { addr := 0x500, size := 0x100, init := ".cfa: sp 0 + .ra: lr", adds := [] } ] }
+def exLeafW : World := { mods := [{ base := 0x400000, size := 0x1000, name := "m" }], syms := [some exLeafSf] }
+def exLeafMem : Mem :=
+  { base := 4096, bytes := #[
+      0, 0, 0, 0, 0, 0, 0, 0,         0, 0, 0, 0, 0, 0, 0, 0,
+      0, 0, 0, 0, 0, 0, 0, 0,         0x00, 0x08, 0x40, 0, 0, 0, 0x7b, 0,
+      0, 0, 0, 0, 0, 0, 0, 0,         0, 0, 0, 0, 0, 0, 0, 0 ] }
+def exLeafCtx : Ctx := { ip := 0x400510, sp := 0x1000, rest := [("fp", 0x1234), ("lr", 0x00a5000000400120)] }
+def exLeafChain : List Exp :=
+  [ { ret := 0x400120, sp := 0x1000, fp := some 0x1234 }, { ret := 0x400800, sp := 0x1020, fp := some 0 } ]
+
+theorem exLeaf_modTable : modTable exLeafW.mods = [(⟨0x400000, 0x400fff⟩, 0)] := exCfi_modTable
+
+theorem exLeaf_cfiTable : cfiTable exLeafSf = [(⟨0x100, 0x1ff⟩, 0), (⟨0x500, 0x5ff⟩, 1)] := by
+  have hsep : RangeMap.Sep [(⟨0x100, 0x1ff⟩, 0), (⟨0x500, 0x5ff⟩, 1)] := by
+    simp [RangeMap.Sep, RangeMap.WF, RangeMap.Gap, RangeMap.satSucc, U64MAX]
+  have hl : (exLeafSf.cfis.zipIdx.filterMap fun (c, i) => (RangeMap.mkRange c.addr c.size).map fun r => (r, i)) =
+      [(⟨0x100, 0x1ff⟩, 0), (⟨0x500, 0x5ff⟩, 1)] := by decide
+  unfold cfiTable
+  rw [hl]
+  simp [RangeMap.safeVecP, RangeMap.sortEntries_of_sep _ hsep, RangeMap.pass_of_sep _ hsep]
+
+theorem exLeaf_rec (instr : Nat) (j : Option Nat) (h1 : RangeMap.get [(⟨0x400000, 0x400fff⟩, 0)] instr = some 0)
+    (h2 : RangeMap.get [(⟨0x100, 0x1ff⟩, 0), (⟨0x500, 0x5ff⟩, 1)] (instr - 0x400000) = j) :
+    cfiRecordAt exLeafW instr = j.bind fun j => exLeafSf.cfis[j]? := by
+  have hm : exLeafW.mods[0]? = some { base := 0x400000, size := 0x1000, name := "m" } := rfl
+  have hs : (exLeafW.syms[0]?).join = some exLeafSf := rfl
+  have hge : ¬ instr < 0x400000 := by
+    intro hlt
+    have : RangeMap.get [(⟨0x400000, 0x400fff⟩, 0)] instr = none := by
+      simp [RangeMap.get, RangeMap.bsearch, RangeMap.bsearch.go]; omega
+    rw [this] at h1; cases h1
+  unfold cfiRecordAt moduleAt
+  rw [exLeaf_modTable, h1]
+  simp only [hm, hs, if_neg hge, exLeaf_cfiTable, h2]
+  cases j <;> rfl
+
+/-- the walk's ptr-auth mask: 47 bits (the module ends far below) -/
+theorem exLeaf_mask : (mkEnv .arm64 .other exLeafW exLeafMem).mask = 2 ^ 47 - 1 := by
+  show ptrAuthMask exLeafW (modTable exLeafW.mods) _ = _
+  rw [exLeaf_modTable]
+  decide
+
+theorem exLeaf_pre :
+    Pre exLeafW (mkEnv .arm64 .other exLeafW exLeafMem) .arm64 .other .cfi exLeafMem exLeafCtx exLeafChain = true := by
+  have r0 := exLeaf_rec 0x400510 (some 1) (by decide) (by decide)
+  have r1 := exLeaf_rec 0x40011c (some 0) (by decide) (by decide)
+  have r2 := exLeaf_rec 0x4007fc none (by decide) (by decide)
+  simp only [Pre, preCfi, exLeafChain, preCfiFrom, linkCfi, exLeafCtx, Arch.adj, Consts.adj_arm64, Nat.reduceSub,
+    r0, r1, r2, exLeaf_mask]
+  decide
+
+example : (walk (mkEnv .arm64 .other exLeafW exLeafMem) (some exLeafMem) exLeafCtx).map
+      (fun f => (f.trust, f.ctx.ip, f.ctx.sp, f.instruction, f.ctx.raw .arm64 "fp")) =
+    [(.context, 0x400510, 0x1000, 0x400510, 0x1234), (.cfi, 0x400120, 0x1000, 0x40011c, 0x1234),
+     (.cfi, 0x400800, 0x1020, 0x4007fc, 0)] := by
+  have r0 := exLeaf_rec 0x400510 (some 1) (by decide) (by decide)
+  have r1 := exLeaf_rec 0x40011c (some 0) (by decide) (by decide)
+  rw [walk_layout_cfi .arm64 .other exLeafW exLeafMem exLeafCtx exLeafChain rfl (by decide) exLeaf_pre]
+  simp only [exLeafChain, expectedCfi, List.map_cons, List.map_nil, symbolise_trust, symbolise_ctx,
+    symbolise_instruction, cfiFrame, savesFpAt, Frame.ofCtx, exLeafCtx, Arch.adj, Consts.adj_arm64, Nat.reduceSub,
+    r0, r1]
+  decide
+
+/-
+  Stated, not proved (sampled by the `mixed` generator of the `chain` engine inside `PreW`):
+
+  theorem walk_layout_cfi_regs : the statement of `walk_layout_cfi` for records whose canonical rule
+      is followed by ANY list of groups `$r: .cfa -OFF + ^` (r callee-saved, pairwise distinct, every
+      slot readable): each frame carries every saved register's slot word and forwards the others.
+      Missing: `parseRules` on a symbolic list of groups, and the name-ordered application of the
+      remaining rules (`mergeSort` in `walkCfi`): the expected frame must be defined through the same
+      sort (`List.map_mergeSort`, `List.mergeSort_perm` + `Nodup` give each register its slot word).
+-/
+
 end MdModel.Walk
